@@ -82,6 +82,10 @@ EXTRA = {
     "GaussianLikelihood_lognormal": lambda: L.GaussianLikelihood(noise_prior=P.LogNormalPrior(-1.0, 0.5), noise_constraint=C.GreaterThan(1e-3)),
     "MultitaskGaussianLikelihood_prior": lambda: L.MultitaskGaussianLikelihood(num_tasks=2, rank=1, noise_prior=_g()),
     "BernoulliLikelihood": lambda: L.BernoulliLikelihood(),
+    # constraints carrying an initial value (applied when the constraint is registered; a round trip must not re-apply it)
+    "GaussianLikelihood_initial_value": lambda v=0: L.GaussianLikelihood(noise_constraint=C.GreaterThan(1e-4, initial_value=0.05 + 0.1 * v)),
+    "ConstantMean_initial_value": lambda v=0: Mn.ConstantMean(constant_constraint=C.Interval(-2.0, 2.0, initial_value=0.5 - 0.3 * v)),
+    "ScaleKernel_initial_value": lambda v=0: K.ScaleKernel(K.RBFKernel(lengthscale_constraint=C.GreaterThan(0.01, initial_value=0.7 + 0.2 * v)), outputscale_constraint=C.Interval(0.01, 10.0, initial_value=2.0 + v)),
 }
 CATALOGUE = dict(C17_CATALOGUE)
 CATALOGUE.update(EXTRA)
@@ -105,7 +109,7 @@ def generate(rng, tier, index):
     n = rng.randint(1, 5) if tier == "quick" else rng.randint(2, 12)
     ops = []
     for _ in range(n):
-        k = core.weighted_choice(rng, [("set", 3.0), ("sample_prior", 1.5), ("evaluate", 2.0), ("mode", 1.0), ("step", 0.7)])
+        k = core.weighted_choice(rng, [("set", 3.0), ("sample_prior", 1.5), ("evaluate", 2.0), ("mode", 1.0), ("step", 0.7), ("freeze", 0.5)])
         if k == "set":
             ops.append({"op": "set", "p": rng.randrange(16), "seed": rng.randrange(1 << 30)})
         elif k == "sample_prior":
@@ -114,6 +118,8 @@ def generate(rng, tier, index):
             ops.append({"op": "evaluate", "seed": rng.randrange(1 << 30), "grad": rng.random() < 0.3})
         elif k == "mode":
             ops.append({"op": "mode", "train": rng.random() < 0.5})
+        elif k == "freeze":
+            ops.append({"op": "freeze", "p": rng.randrange(16), "flag": rng.random() < 0.25})
         else:
             ops.append({"op": "step", "seed": rng.randrange(1 << 30)})
         if rng.random() < 0.35:
@@ -268,6 +274,18 @@ def execute(history):
                     out.violate("snapshot_failed", i, "%s of %s raised %s(%s)" % (how, entry, type(e).__name__, msg[:160]), exc_kind=kind, **cls)
                     sketch.append(tag + "!")
                     continue
+                if how in ("pickle", "deepcopy"):
+                    from .m_c18 import compare_kinds
+
+                    dk = compare_kinds(src, new)
+                    if dk:
+                        out.violate("kind_not_carried", i, "%s of %s: %s" % (how, entry, dk[1]), what=dk[0], **cls)
+                else:
+                    # requires_grad is not part of a state_dict: the user freezes the same parameters again
+                    src_rg = dict((n, p.requires_grad) for n, p in src.named_parameters())
+                    for n, p in new.named_parameters():
+                        if n in src_rg:
+                            p.requires_grad_(src_rg[n])
                 B = new
                 how_last = how
                 check_pair(out, i, A, B, entry, dtn, how, tol, op["seed"], "right after the restore")
@@ -382,7 +400,13 @@ def _edit(out, M, op):
         g = torch.Generator().manual_seed(op["seed"])
         with torch.no_grad():
             for p in M.parameters():
-                p.add_(0.2 * torch.randn(p.shape, generator=g, dtype=p.dtype))
+                delta = 0.2 * torch.randn(p.shape, generator=g, dtype=p.dtype)
+                if p.requires_grad:  # like an optimiser: parameters held fixed do not move
+                    p.add_(delta)
+    elif k == "freeze":
+        named = sorted(M.named_parameters(), key=lambda t: t[0])
+        if named:
+            named[op["p"] % len(named)][1].requires_grad_(bool(op["flag"]))
     else:
         raise core.HarnessError(k)
 
